@@ -46,6 +46,15 @@ Qed.
 Lemma filter_lift (P : nat -> bool) : forall l, filter (fun x : @ztriple F => P (snd x)) (map lift l) = map lift (filter (fun x => P (snd x)) l).
 Proof. induction l as [|x l IH]; [reflexivity|]. cbn [map filter lift snd]. destruct (P (snd x)); cbn [map]; now rewrite IH. Qed.
 
+Lemma mmd_e_fits_z_lift sT tr skip : forall (l : list (@triple F)), mmd_e_fits_z sT tr skip (map lift l) = mmd_e_fits sT tr skip l.
+Proof.
+  induction l as [|x l IH]; [reflexivity|]. cbn [map mmd_e_fits_z mmd_e_fits forallb]. fold (mmd_e_fits_z sT tr skip (map lift l)) (mmd_e_fits sT tr skip l).
+  rewrite IH. f_equal. destruct x as [[M m] i]. unfold zt_mode, lift, t_mode. cbn [snd fst]. f_equal.
+  destruct (Nat.lt_ge_cases m (length sT)) as [H|H].
+  - now rewrite (py_index_nat _ _ H).
+  - rewrite (py_index_nat_out _ _ H). unfold fit_one. apply Nat.ltb_ge in H. now rewrite H.
+Qed.
+
 Lemma mode_dot_z_of_nat (T M : tensor F) k tr : mode_dot_z Op T M (Z.of_nat k) tr = mode_dot Op T M k tr.
 Proof.
   unfold mode_dot_z. destruct (Nat.lt_ge_cases k (ndim T)) as [H|H].
@@ -132,7 +141,8 @@ Proof.
     rewrite (filter_lift (fun i => negb (is_skip skip i))). fold L.
     apply (mmd_loop_z_lift tr L 0 T HsL Hnd). intros; lia.
   - unfold multi_mode_dot_e_z, multi_mode_dot_e_z_gen, multi_mode_dot_e. cbv zeta.
-    rewrite (norm_modes_valid _ _ _ Hv), zip3z_lift, sort_by_mode_lift.
+    rewrite (norm_modes_valid _ _ _ Hv), zip3z_lift, sort_by_mode_lift. cbn [negb orb]. rewrite mmd_e_fits_z_lift.
+    destruct (mmd_e_fits (shape T) tr skip (sort_by_mode (zip3 Ms (Some ks)))); [|reflexivity].
     rewrite mmd_e_loop_z_filter_skip, (mmd_e_loop_filter_skip Op).
     rewrite (filter_lift (fun i => negb (is_skip skip i))). fold L.
     rewrite (mmd_e_loop_z_lift tr (ndim T) L _ HsL Hnd); [reflexivity | cbn [s_dec]; intros; lia | cbn [s_out s_dec]; rewrite seq_length; lia].
